@@ -39,7 +39,7 @@ def demo_command(path):
             if path not in cmd:
                 cmd = re.sub(r"(?<![\w/])" + re.escape(os.path.basename(path)), path, cmd)
             cmd = re.sub(r"\s*\*/\s*$", "", cmd)                       # end of a one-line C comment
-            cmd = re.sub(r"/tmp/wt\d?-C\d+/", "", cmd)                 # the author's own worktree -> the scratch tree (cwd)
+            cmd = re.sub(r"/tmp/wt\d*-C\d+/", "", cmd)                 # the author's own worktree -> the scratch tree (cwd)
             return cmd
     return None
 
